@@ -41,10 +41,12 @@ type vxC15Cfg struct {
 	Kind    string `json:"kind"` // hwmon | file | cmd
 	ConfMap bool   `json:"confMap"`
 	MinMax  bool   `json:"minMax"` // minPwm and maxPwm configured
+	// SingleStep: the configured pwmMap (when present) has a single entry {255: 255} instead of the README map
+	SingleStep bool `json:"singleStep,omitempty"`
 }
 
 func (c vxC15Cfg) String() string {
-	return fmt.Sprintf("%s confMap=%v minMax=%v", c.Kind, c.ConfMap, c.MinMax)
+	return fmt.Sprintf("%s confMap=%v minMax=%v singleStep=%v", c.Kind, c.ConfMap, c.MinMax, c.SingleStep)
 }
 
 type vxC15Case struct {
@@ -134,7 +136,11 @@ func (w *vxC15World) writeConfig() {
 	os.WriteFile(temp, []byte("50000"), 0644)
 	extra := ""
 	if w.confMap {
-		extra += "    pwmMap:\n      0: 0\n      64: 128\n      192: 255\n"
+		if w.cfg.SingleStep {
+			extra += "    pwmMap:\n      255: 255\n"
+		} else {
+			extra += "    pwmMap:\n      0: 0\n      64: 128\n      192: 255\n"
+		}
 	}
 	if w.cfg.MinMax {
 		extra += "    minPwm: 30\n    maxPwm: 200\n"
@@ -275,10 +281,25 @@ func (w *vxC15World) clearLog() {
 }
 
 // one daemon start of the fan: real start-up path up to the third regulation cycle, then shutdown
-func (w *vxC15World) start(t *testing.T) (o vxC15Obs) {
+func (w *vxC15World) start(t *testing.T, lockedFor time.Duration) (o vxC15Obs) {
 	w.clearLog()
 	synctest.Test(t, func(t *testing.T) {
 		p := vxGuardC15(func() {
+			if lockedFor > 0 {
+				// another fan2go process (e.g. `fan2go fan curve`) holds the database lock while the daemon starts
+				other, err := bolt.Open(w.dbPath, 0600, &bolt.Options{Timeout: time.Second})
+				if err != nil {
+					o.Err = "harness: cannot lock the database: " + err.Error()
+					return
+				}
+				released := make(chan struct{})
+				defer func() { <-released }()
+				go func() {
+					time.Sleep(lockedFor)
+					other.Close()
+					close(released)
+				}()
+			}
 			if err := vxLoadConfigLikeCli(w.cfgPath); err != nil {
 				o.Err = "config: " + err.Error()
 				return
@@ -399,8 +420,12 @@ func vxC15Run(t *testing.T, cfg vxC15Cfg, ops []string, fs *env.FS, scratch stri
 	for i, op := range ops {
 		var o vxC15Obs
 		switch op {
-		case "start":
-			o = w.start(t)
+		case "start", "start-locked":
+			if op == "start" {
+				o = w.start(t, 0)
+			} else {
+				o = w.start(t, 5*time.Second)
+			}
 			if o.Err != "" {
 				bad(i, "C15 start failed", o.Err, o)
 				break
@@ -411,9 +436,12 @@ func vxC15Run(t *testing.T, cfg vxC15Cfg, ops []string, fs *env.FS, scratch stri
 			if w.confMap && o.Sweep {
 				bad(i, "C15 configured pwmMap but the fan was swept", "a pwmMap given in the configuration must be used as is", o)
 			}
-			if w.confMap && o.Regulated && o.RegulatedPwm != 128 {
-				// curve value 100 -> request 100 (96 with minPwm 30 / maxPwm 200) -> nearest configured input 64 -> output 128
-				bad(i, "C15 configured pwmMap not used as is", fmt.Sprintf("with pwmMap {0:0, 64:128, 192:255} configured and curve value 100 the fan must be at 128 while regulating, but it is at %d", o.RegulatedPwm), o)
+			wantPwm := 128 // curve value 100 -> request 100 (96 with minPwm 30 / maxPwm 200) -> nearest configured input 64 -> output 128
+			if cfg.SingleStep {
+				wantPwm = 255
+			}
+			if w.confMap && o.Regulated && o.RegulatedPwm != wantPwm {
+				bad(i, "C15 configured pwmMap not used as is", fmt.Sprintf("with the configured pwmMap and curve value 100 the fan must be at %d while regulating, but it is at %d", wantPwm, o.RegulatedPwm), o)
 			}
 			if cfg.MinMax && o.Measure {
 				bad(i, "C15 rpm-curve measurement although minPwm and maxPwm are configured", "README: with minPwm and maxPwm configured the initialization phase is skipped", o)
@@ -448,7 +476,7 @@ func vxC15Run(t *testing.T, cfg vxC15Cfg, ops []string, fs *env.FS, scratch stri
 		if op == "reset" && (hc || hm) {
 			bad(i, "C15 fan reset left stored data behind", fmt.Sprintf("hasCurve=%v hasMap=%v", hc, hm), o)
 		}
-		if (op == "start" || op == "init") && o.Err == "" && (!hc || (!hm && !w.confMap)) {
+		if (op == "start" || op == "start-locked" || op == "init") && o.Err == "" && (!hc || (!hm && !w.confMap)) {
 			bad(i, "C15 characterisation not stored after "+op, fmt.Sprintf("hasCurve=%v hasMap=%v", hc, hm), o)
 		}
 		if (op == "reset-other" || op == "togglemap") && (hc != m.HasCurve || (m.HasMap && !hm)) {
@@ -494,7 +522,7 @@ func TestVX_C15(t *testing.T) {
 		rep.Evaluations = int64(len(rc.Ops))
 		return
 	}
-	alpha := []string{"start", "reset", "init", "togglemap", "reset-other"}
+	alpha := []string{"start", "reset", "init", "togglemap", "reset-other", "start-locked"}
 	var cfgs []vxC15Cfg
 	for _, k := range []string{"hwmon", "file", "cmd"} {
 		for _, cm := range []bool{false, true} {
@@ -502,7 +530,11 @@ func TestVX_C15(t *testing.T) {
 				if k != "hwmon" && mm && !mc.Thorough() {
 					continue
 				}
-				cfgs = append(cfgs, vxC15Cfg{k, cm, mm})
+				cfgs = append(cfgs, vxC15Cfg{Kind: k, ConfMap: cm, MinMax: mm})
+				if k == "hwmon" && !mm {
+					// a fan with a single distinct PWM step (one-entry pwmMap; toggled in by 'togglemap' when cm is false)
+					cfgs = append(cfgs, vxC15Cfg{Kind: k, ConfMap: cm, MinMax: mm, SingleStep: true})
+				}
 			}
 		}
 	}
